@@ -24,6 +24,7 @@ type Env struct {
 	bound  map[string]bool
 	depth  int
 	oldVars map[string]Val // values of variables for old()/entry() (e.g. loop-entry values of phis)
+	params  func(name string) (Val, bool) // entry values of the parameters (names inside old(…) denote these)
 }
 
 func (e *Env) with(name string, v Val) *Env {
@@ -227,6 +228,19 @@ func (e *Env) eval(x Expr) Val {
 				efail("old(…) not available here")
 			}
 			n.st = e.old
+			if e.params != nil {
+				lk := e.lookup
+				pm := e.params
+				n.lookup = func(name string) (Val, bool) {
+					if v, ok := pm(name); ok {
+						return v, true
+					}
+					if lk != nil {
+						return lk(name)
+					}
+					return Val{}, false
+				}
+			}
 		}
 		if e.oldVars != nil && x.Kind == "entry" {
 			n.vars = make(map[string]Val, len(e.vars))
@@ -942,6 +956,34 @@ func (e *Env) evalCall(x *ECall) Val {
 			}
 		}
 		efail("%s: need a map", name)
+	case "box":
+		// the interface value holding x (Go's implicit conversion to an interface type)
+		v := arg(0)
+		if v.Go == nil {
+			efail("box: argument has no Go type")
+		}
+		srt := g.sorts.SortOf(v.Go)
+		mk := g.declareUF("mkif:"+typeStr(v.Go), []string{srt}, SInt)
+		un := g.declareUF("ifval:"+typeStr(v.Go), []string{SInt}, srt)
+		t := app(mk, v.T)
+		if g.pure == 0 {
+			g.assume(sAnd(sEq(app(un, t), v.T), app("=", app("typeof", t), g.typeTag(v.Go)), app(">", t, "0")))
+		}
+		return Val{T: t, Sort: SInt}
+	case "unbox", "hastype":
+		i := arg(0)
+		if len(x.Args) != 2 {
+			efail("%s(i, T)", name)
+		}
+		_, gt := e.resolveType(exprString(x.Args[1]))
+		if gt == nil {
+			efail("%s: %s is not a Go type", name, exprString(x.Args[1]))
+		}
+		if name == "hastype" {
+			return boolVal(sAnd(sNot(app("=", i.T, "0")), app("=", app("typeof", i.T), g.typeTag(gt))))
+		}
+		un := g.declareUF("ifval:"+typeStr(gt), []string{SInt}, g.sorts.SortOf(gt))
+		return g.goVal(app(un, i.T), gt)
 	case "isnil":
 		v := arg(0)
 		if v.Sort == SSlice {
